@@ -41,6 +41,9 @@ void harness(void) {
 #elif defined(KIND_MAP)
   cbor_item_t *it = mk_map(); blocks = 2;
   n_children = it->metadata.map_metadata.end_ptr;
+#ifdef MAP_BOUND
+  __CPROVER_assume(n_children <= MAP_BOUND); /* bounded stand-in: see registry entry decref_map_bounded */
+#endif
   g_dc.watch_value = nondet_bool();
   if (g_dc.watch_value) {
     g_dc.watched = &((struct cbor_pair *)it->data)[g_k].value;
